@@ -34,6 +34,8 @@ DEFAULT_PROFILE = {
         "get_record": 0,
         "get_records": 0,
         "export": 0,
+        "peek": 0,
+        "get_record_absent": 0,
         "clock_jump": 0,
         "restart_lite": 0,
     },
@@ -330,10 +332,11 @@ class Gen(object):
         if uri == pools.XSD_URI:
             return ["qn", "xsd", uri, local]
         # a datatype in a user namespace: use a declared prefix when there is one
-        for p, u, owner in self.scope_prefixes(ch, self.ns_obj):
-            if u == uri:
-                return ["nsobj", owner, p, local]
-        return ["qn", "dt", uri, local]
+        if self.rng.random() < 0.6:
+            for p, u, owner in self.scope_prefixes(ch, self.ns_obj):
+                if u == uri:
+                    return ["nsobj", owner, p, local]
+        return ["qn", self.rng.choice(["dt", "dt", "ex", "o"]), uri, local]
 
     def attr_name_spec(self, ch):
         rng = self.rng
@@ -725,6 +728,26 @@ class Gen(object):
             "show_relation_attributes": rng.random() < 0.5,
             "direction": rng.choice(["BT", "TB", "LR", "RL", "XX"]),
         }]
+
+    def g_peek(self):
+        ch, r = self._pick_rec()
+        if r is None:
+            return None
+        which = self.rng.choice(["label", "value", "types", "attribute", "args", "formal", "extra",
+                                 "repr", "str", "times", "hash"])
+        spec = None
+        if which == "attribute":
+            spec = self.rng.choice([
+                ["qn", "prov", pools.PROV_URI, self.rng.choice(pools.PROV_EXTRA_ATTRS + ["time", "activity", "entity"])],
+                self.name_spec(ch, {"nsobj": 2, "pl": 1}),
+            ])
+            if spec[0] not in ("qn", "nsobj", "pl"):
+                spec = ["qn", "prov", pools.PROV_URI, "label"]
+        return ["peek", ["h", r[0]], which, spec]
+
+    def g_get_record_absent(self):
+        ch = self.rng.choice(self.containers())
+        return ["get_record", ch, ["full", "http://nowhere.example/", "absent%d" % self.rng.randrange(6)]]
 
     def g_clock_jump(self):
         return ["clock_jump", self.rng.choice([1, 3600, 86400, 86400 * 17, 86400 * 365, -86400 * 400, 86400 * 31])]
